@@ -541,9 +541,15 @@ def rule_r8_bls_contract(ctx: Ctx) -> bool:
         ("BitLengthSet({8, 40, 72, 104, 136})", "BitLengthSet(8) + BitLengthSet({32, 64}).repeat_range(2)"),
         ("BitLengthSet(range(0, 257, 8))", "BitLengthSet(8).repeat_range(32)"),
         ("BitLengthSet(5)", "BitLengthSet([5])"),
+        # beyond 2**53 (where a float no longer holds every integer) and beyond 2**64
+        ("BitLengthSet({2**57 + 8, 2**57 + 16})", "BitLengthSet({2**57 + 8, 2**57 + 16}).pad_to_alignment(8)"),
+        ("BitLengthSet({2**57 + 8, 2**57 + 16})", "BitLengthSet({2**57 + 1, 2**57 + 9}).pad_to_alignment(8)"),
+        ("BitLengthSet({2**60 + 72})", "BitLengthSet(8) + BitLengthSet({2**60 + 57}).pad_to_alignment(64)"),
+        ("BitLengthSet({(2**53 + 1) * 8})", "BitLengthSet(8).repeat(2**53 + 1)"),
+        ("BitLengthSet({2**70, 2**70 + 8})", "BitLengthSet({2**70 - 7, 2**70 + 1}).pad_to_alignment(8)"),
     ]
     # pairs of *different* sets: whatever the comparison answers, equal => same hash
-    other = [("BitLengthSet({8, 40, 72, 104, 136})", "BitLengthSet({8, 72, 136})"), ("BitLengthSet({0, 32, 64})", "BitLengthSet({0, 64})"), ("BitLengthSet({1, 2})", "BitLengthSet({1, 3})"), ("BitLengthSet({0, 8})", "BitLengthSet({0, 16})")]
+    other = [("BitLengthSet({2**57 + 8})", "BitLengthSet({2**57 + 16})"), ("BitLengthSet({2**57 + 8, 2**57 + 16}).pad_to_alignment(8)", "BitLengthSet({2**57 + 16, 2**57 + 24}).pad_to_alignment(8)"), ("BitLengthSet({8, 40, 72, 104, 136})", "BitLengthSet({8, 72, 136})"), ("BitLengthSet({0, 32, 64})", "BitLengthSet({0, 64})"), ("BitLengthSet({1, 2})", "BitLengthSet({1, 3})"), ("BitLengthSet({0, 8})", "BitLengthSet({0, 16})")]
     bad_eq, bad_hash = [], []
     for a, c in same + other:
         del expansions[:]
